@@ -280,8 +280,8 @@ func isStringType(t types.Type) bool {
 	return ok && b.Kind() == types.String
 }
 
-func ruleAlias(r *Report) {
-	h := r.Rule("C01.alias", "T", "no string that aliases a (pooled, reused) transaction buffer is stored into column storage, a lookup table, the enum table or the sorted index: stored strings are copies (string([]byte), strings.Clone) or values already in storage", 4)
+func ruleAlias(r *Report, kinds ...string) {
+	h := r.Rule("C01.alias", "T", "no string that aliases a (pooled, reused) transaction buffer is stored into column storage, a lookup table, the enum table or the sorted index: stored strings are copies (string([]byte), strings.Clone) or values already in storage", 1)
 	check := func(name string, fn *ssa.Function) {
 		var bad ssa.Instruction
 		n := 0
@@ -351,12 +351,21 @@ func ruleAlias(r *Report) {
 		}
 	}
 	for _, b := range applyBodies(r) {
+		want := len(kinds) == 0
+		for _, k := range kinds {
+			if k == b.Kind {
+				want = true
+			}
+		}
+		if !want {
+			continue
+		}
 		switch b.Kind {
 		case "string", "key", "enum", "sortindex":
 			check(b.Name, b.Fn)
 		}
 	}
-	if fn := r.P.Fn("(*column.columnEnum).findOrAdd"); fn != nil {
+	if fn := r.P.Fn("(*column.columnEnum).findOrAdd"); fn != nil && len(kinds) == 0 {
 		check("(*column.columnEnum).findOrAdd", fn)
 	}
 }
